@@ -4,7 +4,6 @@ import (
 	"fmt"
 	"io/fs"
 	"os"
-	"strings"
 
 	"github.com/avfs/avfs"
 )
@@ -62,27 +61,6 @@ func family(err error) string {
 	}
 }
 
-// kindFamily infers the family from an fsx outcome kind (fsx.ErrKind): "WINn"
-// is produced only for avfs.WindowsError, errno names for avfs.LinuxError
-// (or a host errno, which avfs never returns from the emulated file systems),
-// the remaining names for CustomError / library sentinels.
-func kindFamily(kind string) string {
-	switch {
-	case kind == "ok":
-		return famOK
-	case strings.HasPrefix(kind, "WIN"):
-		return famWindows
-	case kind == "negative-offset", kind == "closed", kind == "pattern-sep", strings.HasPrefix(kind, "custom:"):
-		return famCustom
-	case kind == "PANIC", kind == "DEADLOCK":
-		return kind
-	case len(kind) > 1 && kind[0] == 'E' && strings.ToUpper(kind) == kind, strings.HasPrefix(kind, "errno"):
-		return famLinux
-	}
-
-	return "other"
-}
-
 // familyOK says whether an error of family fam may be returned by an instance
 // of the given OS type. CustomError is accepted on both (documented in
 // errors.go as OS-independent values).
@@ -130,28 +108,42 @@ var genericCompat = map[string][]string{
 	"ELOOP":     {"ELOOP"},
 }
 
-// callCompat: pairs stated by an OS branch in the body of one call.
+// callCompat: pairs stated by an `OSType() == avfs.OsWindows` branch in the
+// body of one call (memfs.go, orefafs.go, *_file.go).
 var callCompat = map[string]map[string][]string{
-	"Chdir":    {"ENOTDIR": {"WIN267"}},              // memfs.go:65, orefafs.go:66 ErrWinDirNameInvalid
-	"Link":     {"EEXIST": {"WIN183"}, "EPERM": {"WIN5"}}, // memfs.go:330,346; orefafs.go:369,378
-	"Readlink": {"EINVAL": {"WIN4390"}, "EACCES": {"WIN4390"}}, // memfs.go:629; orefafs.go:663
-	"Rename":   {"EEXIST": {"WIN5"}},                 // memfs.go:793,809; orefafs.go:797
-	"Symlink":  {"EACCES": {"WIN1314"}},              // orefafs.go:927
-	"ReadDir":  {"ENOTDIR": {"WIN267"}},              // *_file.go ReadDir/Chdir on a non-directory handle
-	"ReadFile": {"EISDIR": {"WIN1"}},                 // *_file.go Read on a directory: ErrWinIncorrectFunc
+	// Chdir on a non-directory: ErrWinDirNameInvalid
+	"Chdir": {"ENOTDIR": {"WIN267"}},
+	// Link: new name exists -> ErrWinAlreadyExists; old name is a directory -> ErrWinAccessDenied
+	"Link": {"EEXIST": {"WIN183"}, "EPERM": {"WIN5"}},
+	// Readlink of a non-link: ErrWinNotReparsePoint (MemFS EINVAL, OrefaFS EACCES)
+	"Readlink": {"EINVAL": {"WIN4390"}, "EACCES": {"WIN4390"}},
+	// Rename over an existing directory / of a directory over something: ErrWinAccessDenied
+	"Rename": {"EEXIST": {"WIN5"}},
+	// OrefaFS.Symlink (not supported): ErrWinPrivilegeNotHeld
+	"Symlink": {"EACCES": {"WIN1314"}},
+	// Truncate: "truncate(2) rejects a negative length before looking at the name"
+	// on non-Windows types only; a Windows type opens the name first, so EINVAL
+	// faces whatever the lookup reports.
+	"Truncate": {"EINVAL": {"WIN2", "WIN3", "WIN21", "ELOOP"}},
+	// File.ReadDir / File.Chdir on a non-directory: ErrWinDirNameInvalid or NotADirectory
+	"ReadDir":   {"ENOTDIR": {"WIN267"}},
+	"F.ReadDir": {"ENOTDIR": {"WIN3", "WIN267"}, "closed": {"WIN6"}},
+	"F.Chdir":   {"ENOTDIR": {"WIN267"}},
+	// File.Read on a directory: ErrWinIncorrectFunc; on a closed handle: ErrWinInvalidHandle
+	"ReadFile": {"EISDIR": {"WIN1"}},
 	"F.Read":   {"EISDIR": {"WIN1"}, "closed": {"WIN6"}},
 	"F.ReadAt": {"EISDIR": {"WIN1"}, "closed": {"WIN6"}},
-	"F.ReadDir": {"ENOTDIR": {"WIN3", "WIN267"}, "closed": {"WIN6"}},
 	"F.Stat":   {"closed": {"WIN6"}},
 	"F.Seek":   {"closed": {"WIN6"}},
-	"F.Chdir":  {"ENOTDIR": {"WIN267"}},
-	"F.Truncate": {"EINVAL": {"WIN5"}},               // *_file.go:586 Truncate on a handle not open for writing
+	// File.Truncate on a handle not open for writing / on a directory: ErrWinAccessDenied
+	"F.Truncate": {"EINVAL": {"WIN5"}},
 }
 
-// classCompatible: do a Linux-side and a Windows-side failure kind denote the
-// same failure class?
-func classCompatible(call, lk, wk string) bool {
-	if lk == wk && kindFamily(lk) == famCustom {
+// classCompatible: do a Linux-side and a Windows-side failure denote the same
+// failure class? lf, wf are the families of the two values: an OS-independent
+// value (CustomError, io/fs sentinel) is its own counterpart.
+func classCompatible(call, lk, wk, lf, wf string) bool {
+	if lk == wk && permissive(lf) == famCustom && permissive(wf) == famCustom {
 		return true
 	}
 
@@ -168,6 +160,17 @@ func classCompatible(call, lk, wk string) bool {
 	}
 
 	return false
+}
+
+// permissive folds the OS-independent library sentinels (fs.ErrClosed,
+// fs.ErrInvalid, fs.ErrExist ... — what package os itself returns on every OS)
+// into the accepted OS-independent family.
+func permissive(fam string) string {
+	if fam == "io/fs sentinel" {
+		return famCustom
+	}
+
+	return fam
 }
 
 // portableClass names the class of a failure kind independent of the OS type
